@@ -36,7 +36,13 @@ def h_unchanged(ctx, opname, D, P):
                 for j in range(i):
                     ctx.assume(z[p_, i] != z[p_, j])
     objs = [O.wrap(ctx, algopy, a, r) for a, r in zip(op.args, raw)]
-    op.fn(algopy, *objs)
+    res = op.fn(algopy, *objs)
+    if op.group != 'shape':
+        # a computed result is a new array: updating it in place must not touch an operand
+        for k, (a, o) in enumerate(zip(op.args, objs)):
+            for rr in (res if isinstance(res, tuple) else (res,)):
+                if a.kind == 'utpm' and hasattr(rr, 'data'):
+                    ctx.fact(not np.shares_memory(rr.data, o.data), 'result of %s does not share memory with argument %d' % (opname, k))
     for k, (a, r, o) in enumerate(zip(op.args, raw, objs)):
         if a.kind == 'utpm':
             ctx.eq(plain(o.data), np.asarray(r, dtype=object), 'argument %d unchanged by %s' % (k, opname))
@@ -106,6 +112,11 @@ def h_floordiv(ctx, D, P):
     Y = O.make_input(ctx, O.Arg('utpm', (), 'zero'), 'y', D, P)
     for p in range(P):
         ctx.assume(Y[1, p] * Y[1, p] > 1)
+    if P > 1:
+        # the last direction has a regular (non-zero) leading coefficient
+        X[0, P - 1] = ctx.var('xreg')
+        Y[0, P - 1] = ctx.var('yreg')
+        ctx.assume(Y[0, P - 1] * Y[0, P - 1] > 1)
     x, y = mk_utpm(ctx, algopy, X), mk_utpm(ctx, algopy, Y)
     z = x // y
     ctx.eq(plain(x.data), X, 'numerator unchanged by //')
@@ -113,11 +124,12 @@ def h_floordiv(ctx, D, P):
     # quotient of the shifted polynomials:  z * (y/t) == (x/t)
     Z = plain(z.data)
     for p in range(P):
-        for d in range(D - 1):
+        sh = 0 if (P > 1 and p == P - 1) else 1
+        for d in range(D - sh):
             s = 0
             for c in range(d + 1):
-                s = s + Z[c, p] * Y[d - c + 1, p]
-            ctx.eq(s, X[d + 1, p], '(x//y) * (y/t) == x/t order %d dir %d' % (d, p))
+                s = s + Z[c, p] * Y[d - c + sh, p]
+            ctx.eq(s, X[d + sh, p], '(x//y) * (y/t^%d) == x/t^%d order %d dir %d' % (sh, sh, d, p))
 
 
 def h_tracer_inputs(ctx, pname, D, P):
@@ -190,6 +202,7 @@ def units(tier, seed):
             add('alias/%s/%s/%s' % (form, opn, shp), 'h_alias', opn=opn, form=form, shape=shp, D=D, P=P)
     add('alias/pow,dot,outer', 'h_pow_alias', D=D, P=P)
     add('floordiv zero leading coefficients/D3,P1', 'h_floordiv', D=3, P=1)
+    add('floordiv zero leading coefficient in one direction only/D3,P2', 'h_floordiv', D=3, P=2)
     for pn in ['x*x', 'x/(1+x*x)', 'exp', 'buffer', 'buffer-overwrite', 'tan(x)*x', 'dot(mat,mat)', 'inv', 'sum', 'x[1:]*x[:-1]']:
         add('tracer inputs and seeds/%s' % pn, 'h_tracer_inputs', pname=pn, D=2, P=2)
     add('tracer two dependent outputs', 'h_two_outputs', D=2, P=2)
